@@ -95,6 +95,53 @@ def eval_word(case):
     return OK(outcome=(w, tuple(outs)), nontrivial=nt, evals=nev)
 
 
+def eval_flank(case):
+    """One flank of L samples with its half-height crossing at EVERY position m (a step from low to high after sample m), rises
+    and decays, plus three crossings at (m, m+2, L-2): flank lengths far beyond the exhaustive small signals (100-200 samples
+    per flank at realistic sampling rates)."""
+    L, = case
+    outs, nev = [], 0
+    for m in range(0, L - 1):
+        for kind in ('rise', 'decay'):
+            x = np.array([-1.] * (m + 1) + [1.] * (L - 1 - m))
+            if kind == 'decay':
+                x = -x
+            peaks, troughs = ([L - 1], [0]) if kind == 'rise' else ([0], [L - 1])
+            nev += 1
+            o, v = compare(x, peaks, troughs, {'flank_len': L, 'crossing': m, 'flank': kind, 'crossings': 1})
+            if v is not None:
+                v['evals'] = nev
+                return v
+            outs.append(o)
+            if m + 3 < L - 2:
+                y = x.copy()
+                s_ = 1. if kind == 'rise' else -1.
+                y[m + 1] = s_ * 1.
+                y[m + 2] = s_ * -1.
+                y[m + 3:L - 2] = s_ * 1.
+                y[L - 2] = s_ * -1.      # crossings at m, m+2 and L-2 (median m+2)
+                y[L - 1] = s_ * 1.
+                nev += 1
+                o, v = compare(y, peaks, troughs, {'flank_len': L, 'crossing': m, 'flank': kind, 'crossings': 3})
+                if v is not None:
+                    v['evals'] = nev
+                    return v
+                outs.append(o)
+    return OK(outcome=(L, hash(tuple(map(repr, outs)))), nontrivial=L >= 4, evals=nev)
+
+
+def eval_long(case):
+    from bycycle.cyclepoints import find_extrema
+    w, fe, b = case
+    o_ = S.resolve((S.LONG_DECL[w],))
+    sig = S.word_signal(w)
+    p, t = find_extrema(sig, o_['fs'], o_['f_range'], boundary=b, first_extrema=fe)
+    o, v = compare(sig, [int(x) for x in p], [int(x) for x in t], {'word': w, 'first_extrema': fe, 'boundary': b})
+    if v is not None:
+        return v
+    return OK(outcome=(w, fe, b, hash(repr(o))), nontrivial=True, evals=1)
+
+
 def spaces(tier, seed):
     N = 6 if tier == 'quick' else 7
     out = [ProductSpace('small{-1,0,1,2}^<=%d' % N, [[-1, 0, 1, 2]] * N, eval_small, min_len=2,
@@ -107,6 +154,12 @@ def spaces(tier, seed):
         al = S.alphabet(8)
         out.append(ProductSpace('words-W(8,5)', S.word_dims(al, 5), eval_word, bounds={'letters': al},
                                 describe='extrema from find_extrema on all 5-letter words, first_extrema x boundary'))
+        Lmax = 130 if tier == 'quick' else 260
+        out.append(ProductSpace('single-flank<=%d' % Lmax, [list(range(2, Lmax + 1))], eval_flank,
+                                describe='every flank length 2..%d x every crossing position x rise / decay x 1 or 3 crossings' % Lmax))
+        from bcmc.explore import ListSpace
+        out.append(ListSpace('long-recordings', [[w, fe, b] for w in ('@A', '@B', '@C', '@D') for fe in (None, 'peak', 'trough') for b in (0, 7)][:24 if tier != 'quick' else 24],
+                             eval_long, describe='midpoints of every flank of four long real-valued recordings (flanks of 25 / 52 / 100 samples)'))
     if tier != 'quick':
         al = S.alphabet(0, seed, extra=2) + S.alphabet(4)
         out.append(ProductSpace('words-Wextra(6,5)', S.word_dims(al, 5), eval_word, bounds={'letters': al}))
